@@ -54,6 +54,8 @@ module Nat :
 
   val leb : nat -> nat -> bool
 
+  val ltb : nat -> nat -> bool
+
   val min : nat -> nat -> nat
  end
 
@@ -166,6 +168,8 @@ module Z :
   val coq_land : z -> z -> z
  end
 
+val tl : 'a1 list -> 'a1 list
+
 val nth : nat -> 'a1 list -> 'a1 -> 'a1
 
 val nth_error : 'a1 list -> nat -> 'a1 option
@@ -187,6 +191,10 @@ val forallb : ('a1 -> bool) -> 'a1 list -> bool
 val filter : ('a1 -> bool) -> 'a1 list -> 'a1 list
 
 val combine : 'a1 list -> 'a2 list -> ('a1 * 'a2) list
+
+val firstn : nat -> 'a1 list -> 'a1 list
+
+val skipn : nat -> 'a1 list -> 'a1 list
 
 val seq : nat -> nat -> nat list
 
@@ -759,3 +767,74 @@ val mAG : z
 val small : z -> bool
 
 val ops_small : top list -> z -> bool
+
+type elem = nat * z
+
+type svec =
+| SInline of elem list
+| SHeap of elem list
+
+val view : svec -> elem list
+
+val is_heap : svec -> bool
+
+type sstate = { va : svec; vb : svec; next_id : nat; dropped : nat list }
+
+val sstate0 : sstate
+
+val get : sstate -> bool -> svec
+
+val set : sstate -> bool -> svec -> sstate
+
+val drop_ids : sstate -> nat list -> sstate
+
+val ids : elem list -> nat list
+
+val sv_push : nat -> svec -> elem -> svec
+
+val sv_with_capacity : nat -> nat -> svec
+
+val retain_split : elem list -> bool list -> elem list * elem list
+
+val dedup_split : z option -> elem list -> elem list * elem list
+
+val with_view : svec -> elem list -> svec
+
+val insert_elem : elem -> elem list -> elem list
+
+val sort_elems : elem list -> elem list
+
+val cmp_vals : elem list -> elem list -> comparison
+
+val eq_vals : elem list -> elem list -> bool
+
+val fresh : nat -> z list -> elem list
+
+type sop =
+| ONew of bool
+| OWithCap of bool * nat
+| OPush of bool * z
+| OExtend of bool * z list
+| OClear of bool
+| ORetain of bool * bool list
+| ODedup of bool
+| OClone of bool
+| OEq
+| OCmp
+| OSort of bool
+| OIntoIter of bool * nat
+| OIter of bool
+
+type sobs0 =
+| SView of elem list * bool
+| SBool of bool
+| SOrd of comparison
+| SItems of elem list
+
+val bump : sstate -> nat -> sstate
+
+val sv_step : nat -> sstate -> sop -> sstate * sobs0
+
+val sv_run : nat -> sop list -> sstate -> sobs0 list * sstate
+
+val sv_final : sstate -> nat list
